@@ -93,6 +93,21 @@ func (r *Run) c03Build(t interface {
 			for k := t.Draw(3); k > 0; k-- {
 				headers = append(headers, pick(noise))
 			}
+			if t.Chance(1, 10) {
+				// one over-long irrelevant header line whose tail, at an offset where a fixed-size
+				// line buffer would be cut, reads like a header that matters: a line is a line
+				// however long it is, so the reference ignores all of it
+				base := []int{4096, 4096, 4096, 1024, 2048, 8192, 512, 65536}[t.Draw(8)]
+				off := base * (1 + t.Draw(2))
+				if t.Chance(1, 4) {
+					off = 64 + t.Draw(6000)
+				}
+				name := "X-Pad: "
+				smuggled := []string{"content-type: application/activity+json", "content-type: application/jrd+json", "content-type: text/html",
+					"location: " + urls[t.Draw(len(urls))], "content-type: application/json"}[t.Draw(5)]
+				headers = append(headers, name+strings.Repeat("a", off-len(name))+smuggled)
+				r.S.Probe("c03_long_header_line")
+			}
 		}
 		eol := "\r\n"
 		if t.Chance(1, 5) {
